@@ -144,22 +144,22 @@ PROPERTY_RULES: Dict[str, List[Scoped]] = {
         _r("LABEL-GUARD"), _r("REGISTRY-SIGNATURE"), _r("CHOICES-ENUM"),
         _r("ERROR-PATH"), _r("COST-OPTIONS"), _r("CLI-COST-SOURCE"), _r("COST-PASSTHROUGH"), _r("DISPATCH-KEYS"),
         _r("COST-TRUTH", S_CLI + S_MODEL), _r("FIELD-COPY-COMPLETE", S_CLI), _r("RESULT-SCOPE"),
-        _r("LABEL-PASS", ("cli.", "compute.")), _r("LAYOUT-SIDES"), _r("LOSS-CHAIN"), _r("SORT-KEY-ALIGNED"), _r("RESULT-UNCONDITIONAL"),
-        _r("TREE-WRITE-ARGS"), _r("KEY-GUARD", S_CLI + S_MODEL), _r("COST-KEY-RESOLUTION"),
+        _r("LABEL-PASS", ("cli.", "compute.")), _r("LAYOUT-SIDES"), _r("LOSS-WALK"), _r("SORT-KEY-ALIGNED"), _r("RESULT-UNCONDITIONAL"),
+        _r("TREE-WRITE-ARGS"), _r("KEY-GUARD", S_CLI + S_MODEL), _r("COST-KEY-RESOLUTION"), _r("ANCHOR-SET"),
     ],
     "C13": [
         _r("KIND-EXHAUSTIVE"), _r("KIND-AGREE"), _r("ONE-EVENT-NODE"), _r("ONE-ARROW"), _r("LOSS-MARKERS"),
         _r("STYLE-DEFINED"), _r("MEASURE-LOCKSTEP"), _r("IDENTITY-KEYS"), _r("SOLVER-STATELESS", S_RENDER),
-        _r("NO-PRUNED-TRAVERSAL", S_RENDER), _r("LOSS-CHAIN"), _r("SIGMA-DRAW"), _r("LAYOUT-SIDES"),
+        _r("NO-PRUNED-TRAVERSAL", S_RENDER), _r("LOSS-WALK"), _r("SIGMA-DRAW"), _r("LAYOUT-SIDES"),
         _r("NO-TOPOLOGY-WRITE"),
         _r("PLACED-IN-SPECIES"),
-        _r("LEAF-MAP-DOMAIN"),
+        _r("LEAF-MAP-DOMAIN"), _r("ANCHOR-SET"),
     ],
     "C14": [
         _r("SIGMA-INVARIANCE"), _r("SIGMA-CLOSURE"), _r("SOLVER-STATELESS", ("render.layout:", "utils.geometry:")),
-        _r("LOSS-CHAIN"), _r("LAYOUT-SIDES"),
+        _r("LOSS-WALK"), _r("LAYOUT-SIDES"),
         _r("NO-TOPOLOGY-WRITE"),
-        _r("FINITE-ARITH"),
+        _r("FINITE-ARITH"), _r("ANCHOR-SET"),
     ],
     "C15": [
         _r("TEMPLATE-BRACES"), _r("TEMPLATE-TERMINATED"), _r("PICTURE-ENV"), _r("COLOR-INTERN"),
@@ -438,7 +438,7 @@ PROPERTY_INFO: Dict[str, Dict] = {
             "one option per cost key, passed verbatim incl. 0, and kept when the input is rebuilt (COST-OPTIONS, COST-PASSTHROUGH, COST-TRUTH, FIELD-COPY-COMPLETE); printed cost source (CLI-COST-SOURCE)",
             "draw / reconcile pick the labelled class only when the keys it needs are present (DISPATCH-KEYS)",
             "one result entry over all refinements whatever the policy - a necessary condition of 'all contains any' (RESULT-SCOPE)",
-            "refinements are labelled inside the loop (LABEL-PASS in compute/), the sort key cannot raise on mixed names (SORT-KEY-ALIGNED), draw's layout sides and loss chains are consistent (LAYOUT-SIDES, LOSS-CHAIN)",
+            "refinements are labelled inside the loop (LABEL-PASS in compute/), the sort key cannot raise on mixed names (SORT-KEY-ALIGNED), draw's layout sides and loss chains are consistent (LAYOUT-SIDES, LOSS-WALK)",
         ],
         "not_decided": ["distinctness of names at run time", "all superset of any as a set relation", "draw accepting every object beyond the key dispatch"],
     },
@@ -449,7 +449,7 @@ PROPERTY_INFO: Dict[str, Dict] = {
         "decided": [
             "KIND-EXHAUSTIVE, KIND-AGREE, ONE-EVENT-NODE, ONE-ARROW",
             "LOSS-MARKERS (oracle: evaluator signature), STYLE-DEFINED, MEASURE-LOCKSTEP",
-            "every object node is visited (NO-PRUNED-TRAVERSAL); loss nodes compare by identity and link to the previous one (IDENTITY-KEYS, LOSS-CHAIN)",
+            "every object node is visited (NO-PRUNED-TRAVERSAL); loss nodes compare by identity and link to the previous one (IDENTITY-KEYS, LOSS-WALK)",
             "a drawing does not inherit layers from an earlier one (SOLVER-STATELESS)",
             "fork corners, leaf outlines, leaf and loss markers and path operators of the horizontal drawing are the transposed ones of the vertical drawing, as symbolic points (SIGMA-DRAW)",
             "branch.left / branch.right are the lineages below the first / second child species (speciation) resp. the conserved / transferred child (transfer), over every configuration of the relational model (LAYOUT-SIDES)",
@@ -465,7 +465,7 @@ PROPERTY_INFO: Dict[str, Dict] = {
         "decided": [
             "horizontal = transposed vertical (SIGMA-INVARIANCE + SIGMA-CLOSURE)",
             "computing twice gives the same result: no state kept (SOLVER-STATELESS)",
-            "every level of a multi-level loss references the node created just before, and the sides of a speciation branch are the lineages that live in the matching child species (LOSS-CHAIN, LAYOUT-SIDES) - necessary for 'every anchor referenced exists'",
+            "every level of a multi-level loss references the node created just before, and the sides of a speciation branch are the lineages that live in the matching child species (LOSS-WALK, LAYOUT-SIDES) - necessary for 'every anchor referenced exists'",
             "the input trees are not rewired by a layout computation (NO-TOPOLOGY-WRITE)",
             "coordinates are polynomial / max / min expressions of the sizes and parameters: no division by a variable, no inf, no max() of a possibly empty collection (FINITE-ARITH) - a sufficient condition of 'all coordinates are finite'",
         ],
